@@ -1113,7 +1113,7 @@ func (c *c02ctx) collectSteps(tf *ast.FuncDecl) {
 			bt := c.seqTxt(is.Body.List)
 			if len(bt) != 6 || bt[0] != "tagged := name != \"\"" || bt[1] != "if name == \"\" { name = sf.Name }" ||
 				!strings.HasPrefix(bt[2], "field := field{") || bt[3] != "fields = append(fields, field)" ||
-				!strings.HasPrefix(bt[4], "if count[f.typ] > 1 {") || bt[5] != "continue" {
+				!strings.HasPrefix(bt[4], "if count[f.typ] > 1 {") || !strings.HasSuffix(bt[4], "fields = append(fields, fields[len(fields)-1]) }") || bt[5] != "continue" {
 				c.fail(is, "typeFields: recording of a field of an unknown shape")
 			}
 			lit := is.Body.List[2].(*ast.AssignStmt).Rhs[0].(*ast.CompositeLit)
